@@ -7,7 +7,7 @@ set -u
 PATCH="$1"; shift
 TESTS=0; TIER=quick
 while [ $# -gt 0 ]; do case "$1" in --tests) TESTS=1; shift;; --tier) TIER="$2"; shift 2;; *) break;; esac; done
-VM=/var/tmp/verif-m; RM=/var/tmp/repo-m
+VM="${VM:-/var/tmp/verif-m}"; RM="${RM:-/var/tmp/repo-m}"
 if [ ! -d "$VM" ]; then git -C /verif worktree add -q --detach "$VM" HEAD; fi
 git -C "$VM" checkout -q --detach "$(git -C /verif rev-parse HEAD)"
 if [ ! -d "$RM" ]; then git -C /repo worktree add -q --detach "$RM" HEAD; fi
@@ -16,7 +16,7 @@ if [ "$PATCH" != "none" ]; then
   git -C "$RM" apply "$PATCH" || { echo "PATCH DOES NOT APPLY"; exit 2; }
 fi
 if [ $TESTS -eq 1 ]; then
-  ( cd "$RM" && CARGO_TARGET_DIR=/var/tmp/repo-m-target cargo test --workspace --no-fail-fast --offline 2>&1 | awk '/^test result/ {p+=$4; f+=$6} /^test .* FAILED/ {print} /^error/ {print} END {print "repo tests with patch: passed=" p " failed=" f}' )
+  ( cd "$RM" && CARGO_TARGET_DIR="${RM}-target" cargo test --workspace --no-fail-fast --offline 2>&1 | awk '/^test result/ {p+=$4; f+=$6} /^test .* FAILED/ {print} /^error/ {print} END {print "repo tests with patch: passed=" p " failed=" f}' )
 fi
 for id in "$@"; do
   out=$(VERIF_REPO="$RM" VERIF_SEED="${VERIF_SEED:-0}" "$VM/check" "$id" --tier "$TIER" 2>&1); rc=$?
